@@ -20,12 +20,12 @@ ASSUMPTIONS = [
 ]
 TRUSTED = ['futures model lean/PlumpyModel/Futures/Model.lean (hand-written, compared with the real adapters per operation)']
 
-TERMS = ['res', 'exc', 'can']
-TERM_OBS = {'res': 'V7', 'exc': 'Xu3', 'can': 'C'}
+TERMS = ['res', 'exc', 'can', 'exk']         # exk: an EXCEPTION whose class is kiwipy's CancelledError (not a cancellation)
+TERM_OBS = {'res': 'V7', 'exc': 'Xu3', 'can': 'C', 'exk': 'Xu77'}
 
 
 def term_op(term, h):
-    return {'res': f'res:{h}:7', 'exc': f'exc:{h}:3', 'can': f'can:{h}'}[term]
+    return {'res': f'res:{h}:7', 'exc': f'exc:{h}:3', 'can': f'can:{h}', 'exk': f'exc:{h}:77'}[term]
 
 
 def level_op(j, n, term):
@@ -50,12 +50,12 @@ def chain_case(fam, n, term, order, mask, rng, variant=''):
             elif fam == 'mirror':
                 op = 'mirror:0'
             elif fam == 'rpc':
-                op = 'rpc:f0' if n >= 0 else {'res': 'rpc:r7', 'exc': 'rpc:x3'}[term]
+                op = 'rpc:f0' if n >= 0 else {'res': 'rpc:r7', 'exc': 'rpc:x3', 'exk': 'rpc:x77'}[term]
             elif fam == 'comm':
                 if n >= 0:
                     op = 'comm:w0' if variant == 'await' else 'comm:f0'
                 else:
-                    op = {'res': 'comm:r7', 'exc': 'comm:x3', 'can': 'comm:c'}[term]
+                    op = {'res': 'comm:r7', 'exc': 'comm:x3', 'can': 'comm:c', 'exk': 'comm:x77'}[term]
             handles['W'] = nh
             nh += 1
             events.append(('W', op))
@@ -258,7 +258,7 @@ def gen_cases(ctx):
     for n in range(-1, (6 if th else 4) + 1):
         orders, full = perms_or_sample(['W'] + list(range(n + 1)), rng, 2000 if th else 720)
         for term in TERMS:
-            if n == -1 and term == 'can':
+            if n == -1 and term in ('can', 'exk'):
                 continue
             for o in orders:
                 for m in masks(n + 2, rng, n <= 2, extra=1):
@@ -502,6 +502,54 @@ def monitor_corpus(r):
 
 # ---------------------------------------------------------------------------------------------------------------------
 
+def idle_loop_stream(_=None):
+    """impl-only: `create_task` (and so every subscriber converted by `convert_to_comm`) is called from a thread that is NOT the
+    loop's, while the loop idles in its selector with nothing scheduled: the coroutine must be run and its outcome delivered
+    without anything else waking the loop"""
+    from harness import common
+    common.ensure_repo_on_path()
+    import asyncio
+    import threading
+    import time
+    from plumpy import futures
+    fails = []
+    for what in ('value', 'exception'):
+        loop = asyncio.new_event_loop()
+        ready = threading.Event()
+
+        def runner():
+            asyncio.set_event_loop(loop)
+            loop.call_soon(ready.set)
+            loop.run_forever()
+        t = threading.Thread(target=runner, daemon=True)
+        t.start()
+        ready.wait(5)
+        time.sleep(0.2)            # the loop now blocks in its selector
+
+        async def coro():
+            if what == 'exception':
+                raise ValueError('boom')
+            return 5
+        fut = futures.create_task(coro, loop)
+        deadline = time.time() + 5
+        while time.time() < deadline and not fut.done():
+            time.sleep(0.01)
+        ok = fut.done()
+        if ok and not fut.cancelled():
+            fut.exception()          # (retrieved: nothing is left for the garbage collector to report)
+        if not ok:
+            fails.append(dict(signature='task-never-run-on-idle-loop', clause="the future returned for a scheduled coroutine ends with the "
+                              "coroutine's result or exception (scheduled from another thread onto an idle loop)",
+                              detail=dict(outcome=what), case=dict(fam='idle-loop', groups=[])))
+        loop.call_soon_threadsafe(loop.stop)
+        t.join(5)
+        try:
+            loop.close()
+        except Exception:  # noqa
+            pass
+    return fails
+
+
 def run(ctx):
     cases, exhaustive = gen_cases(ctx)
     hints = getattr(ctx, 'hints', None) or []
@@ -521,7 +569,7 @@ def run(ctx):
         chunks = [lines[i:i + size] for i in range(0, len(lines), size)]
         outs = ctx.model.run_parallel('futures', chunks)
         model = [l for ch in outs for l in ch]
-    divergences, failures = [], list(monitor_corpus(corpus))
+    divergences, failures = [], list(monitor_corpus(corpus)) + idle_loop_stream()
     distinct = set()
     fams, depths, terms, threads, nops = {}, {}, {}, {}, 0
     for idx, (case, out) in enumerate(zip(cases, impl)):
@@ -567,6 +615,8 @@ def run(ctx):
 
 def replay(ctx, failure):
     case = failure['case']
+    if case.get('fam') == 'idle-loop':
+        return dict(failures=idle_loop_stream())
     if case.get('fam') == 'corpus-f20':
         r = fi.corpus_f20()
         return dict(impl=r, failures=monitor_corpus(r))
